@@ -19,7 +19,8 @@ SPEC = dict(
         dict(fn="c01_aarch64_plt_loads_its_got_slot", file=A, timeout=900),
         dict(fn="c12_x86_64_ranges", file=U, timeout=900),
         dict(fn="c13_aarch64_encoding_data", file=UA, timeout=900),
-        dict(fn="c01_tls_got_slots_agree_with_writer", file=W, timeout=2400, tiers=["thorough"]),
+        dict(fn="c01_tls_got_slots_shared", file=W, timeout=2400, tiers=["thorough"]),
+        dict(fn="c01_tls_got_slots_dyn_pie", file=W, timeout=2400, tiers=["thorough"]),
     ],
     functions_encoded=["elf_x86_64::ElfX86_64::write_plt_entry", "elf_aarch64::ElfAArch64::write_plt_entry",
                        "linker_utils::elf::RelocationKindInfo::write_to_buffer (ByteSize rows, x86-64 and AArch64)",
